@@ -61,9 +61,9 @@ def _getitem(self, key):
 _names = itertools.count()
 
 
-class Interp1(core.Interp):
-  """wp.block_dim() of a launch with block_dim = 1 (the CPU configuration of _solve_LD_sparse: one thread per world walks every
-  level in order, the block barrier is a no-op)"""
+class _RunMixin:
+  """shared by the thread interpreter and the tile-block interpreter of a HostRun: registers itself (store log) and names
+  every symbolic float a thread stores"""
 
   def __init__(self, *a, **kw):
     kw["track_access"] = True
@@ -79,8 +79,14 @@ class Interp1(core.Interp):
     if hr is not None and hr.naming and core.is_sym(val) and not isinstance(val, core.Vec) and z3.is_real(val) and val.num_args() > 0:
       v = z3.Real(f"t!{next(_names)}")
       hr.defs.append((v, val))
+      hr.defmap[v.decl().name()] = val
       val = v
     return super().store(ref, idx, val, g, where)
+
+
+class Interp1(_RunMixin, core.Interp):
+  """wp.block_dim() of a launch with block_dim = 1 (the CPU configuration of _solve_LD_sparse: one thread per world walks every
+  level in order, the block barrier is a no-op)"""
 
   def builtin(self, fr, key, args, e):
     if key == "block_dim":
@@ -91,14 +97,147 @@ class Interp1(core.Interp):
     return super().builtin(fr, key, args, e)
 
 
+def _R(n):
+  return [z3.RealSort()] * n
+
+
+def upper(t):
+  """row-major upper triangle (incl. diagonal) of a square tile / nested list"""
+  n = t.shape[0]
+  return [core.to_z3(t.at(i, j), "real") for i in range(n) for j in range(i, n)]
+
+
+def chol_app(n, i, j, ups):
+  """CHOL_ij: entry (i, j), i <= j, of the upper factor U (U^T U = A) as an uninterpreted function of A's upper triangle"""
+  return z3.Function(f"chol{n}_{i}_{j}", *_R(len(ups) + 1))(*ups)
+
+
+def cholsolve_app(n, r, ups, rhs):
+  """CHOLSOLVE_r: component r of the solution computed from the factor's upper triangle and the right-hand side"""
+  return z3.Function(f"cholsolve{n}_{r}", *_R(len(ups) + len(rhs) + 1))(*ups, *rhs)
+
+
+def make_tile_interp():
+  from wsym import tiles
+
+  class TileInterp(_RunMixin, tiles.BlockInterp):
+    """tile kernels of the inertia factorisation at the DATAFLOW level: tile_load_indexed is modelled exactly; the dense
+    Cholesky built-ins are contracts over uninterpreted functions (validated numerically against the real Warp built-ins in
+    c21.unit_tile_contracts):
+      tile_cholesky_inplace(A, "upper"): upper triangle := CHOL_ij(upper triangle of A), lower triangle := 0
+      tile_cholesky_solve(U, y, "upper"): x_r := CHOLSOLVE_r(upper triangle of U, y); when U is recognisably CHOL(A)
+        (directly, or through the names of stored values) the defining equation  A x = y  (A symmetric from its upper
+        triangle) is added as a side axiom."""
+
+    def tile_op(self, fr, key, a, kw, e):
+      T = tiles.Tile
+      g = self.active(fr)
+      where = self.where(fr, e) if e is not None else fr.name
+      if key == "tile_load_indexed":
+        arr, ind = self._view(a[0]), kw.get("indices", a[1] if len(a) > 1 else None)
+        shape = tiles._shape(kw.get("shape", a[2] if len(a) > 2 else None))
+        off, axis = kw.get("offset", None), kw.get("axis", 0)
+        if arr.ndim != 1 or len(shape) != 1 or axis != 0 or off is not None or not isinstance(ind, T) or len(ind.c) != shape[0]:
+          raise core.Unsupported("tile_load_indexed: only the 1-d gather form is modelled")
+        dim = arr.shape[0]
+        out = []
+        for p in range(shape[0]):
+          i = core.norm_scalar(ind.c[p])
+          inb = core.And(core.cmp(">=", i, 0), core.cmp("<", i, dim))
+          if inb is False:
+            out.append(0.0)  # an index outside the array reads as zero (validated against the real built-in)
+            continue
+          v = self.load(arr, (i,), core.And(g, inb), where)
+          out.append(v if inb is True else tiles._orig_ite(inb, v, 0.0))
+        return T(out, shape, "f")
+      if key in ("tile_cholesky_inplace", "tile_cholesky"):
+        A = a[0]
+        fm = kw.get("fill_mode", a[1] if len(a) > 1 else "lower")
+        if not isinstance(A, T) or len(A.shape) != 2 or A.shape[0] != A.shape[1] or fm != "upper":
+          raise core.Unsupported(f"{key}: only square tiles with fill_mode='upper' are modelled")
+        n = A.shape[0]
+        ups = upper(A)
+        out = [chol_app(n, i, j, ups) if i <= j else 0.0 for i in range(n) for j in range(n)]
+        if key == "tile_cholesky":
+          return T(out, A.shape, "f")
+        A.c = out if g is True else [tiles._orig_ite(g, x, y) for x, y in zip(out, A.c)]
+        return None
+      if key == "tile_cholesky_solve":
+        U, y = a[0], a[1]
+        fm = kw.get("fill_mode", a[2] if len(a) > 2 else "lower")
+        if not isinstance(U, T) or not isinstance(y, T) or len(U.shape) != 2 or U.shape[0] != U.shape[1] or y.shape != (U.shape[0],) or fm != "upper":
+          raise core.Unsupported("tile_cholesky_solve: only (n, n) x (n,) with fill_mode='upper' is modelled")
+        n = U.shape[0]
+        ups = upper(U)
+        rhs = [core.to_z3(v, "real") for v in y.c]
+        sol = [cholsolve_app(n, r, ups, rhs) for r in range(n)]
+        A = self._recognise(n, ups)
+        if A is not None:
+          for i in range(n):
+            self.assumes.append(z3.Sum([A[min(i, j)][max(i, j)] * sol[j] for j in range(n)]) == rhs[i])
+        return T(sol, (n,), "f")
+      return super().tile_op(fr, key, a, kw, e)
+
+    def _recognise(self, n, ups):
+      """-> upper-triangular nested dict A[i][j] (i <= j) if ups is CHOL(A) entry by entry, else None"""
+      hr = HostRun.current
+      common, k = None, 0
+      for i in range(n):
+        for j in range(i, n):
+          t = ups[k]
+          k += 1
+          if z3.is_const(t) and hr is not None and t.decl().name() in hr.defmap:
+            t = hr.defmap[t.decl().name()]
+          if not z3.is_app(t) or t.decl().name() != f"chol{n}_{i}_{j}" or t.num_args() != len(ups):
+            return None
+          args = t.children()
+          if common is None:
+            common = args
+          elif any(not x.eq(y) for x, y in zip(common, args)):
+            return None
+      A, k = {}, 0
+      for i in range(n):
+        A[i] = {}
+        for j in range(i, n):
+          A[i][j] = common[k]
+          k += 1
+      return A
+
+  return TileInterp
+
+
 class HostRun(host.HostRun):
   """HostRun whose shim arrays can be sliced `a[:, off:]` and copied into such views"""
 
   cur_block_dim = None
 
-  def __init__(self, *a, naming=True, skip_tiled=False, skip_fills=False, **kw):
+  def __init__(self, *a, naming=True, skip_tiled=False, skip_fills=False, exec_tiles=False, **kw):
     super().__init__(*a, **kw)
     self.naming, self.defs, self.interps, self.skip_tiled, self.skip_fills = naming, [], [], skip_tiled, skip_fills
+    self.defmap, self.exec_tiles = {}, exec_tiles
+
+  def run_tiled(self, kernel, dim, inputs=(), outputs=(), **kw):
+    """wp.launch_tiled: every block is interpreted by the tile-block interpreter (one lane, as the Warp CPU backend runs it)"""
+    inputs, outputs = list(inputs or ()), list(outputs or ())
+    args = inputs + outputs
+    d = (int(dim),) if isinstance(dim, (int, np.integer)) else tuple(int(x) for x in dim)
+    specs = [(a.label, a.type) for a in kernel.adj.args]
+    if len(specs) != len(args):
+      raise core.Unsupported(f"launch_tiled of {kernel.key}: {len(args)} args for {len(specs)} params")
+    self.events.append(host.Event("launch", kernel, d, None, [a.name_ if isinstance(a, host.SymArr) else None for a in args]))
+    if self.on_launch is not None and self.on_launch(self, kernel, d, args) == "skip":
+      return
+    vals = [self.to_arg(a, t) for a, (l, t) in zip(args, specs)]
+    TI = make_tile_interp()
+    self.cur_block_dim = 1
+    for tid in itertools.product(*[range(n) for n in d]):
+      self.nthreads += 1
+      it = TI(unroll=self.unroll, tid=tid[0] if len(tid) == 1 else tid, **self.interp_kw)
+      it.call_pyfunc(kernel.func, vals, name=kernel.key)
+      self.assumes.extend(it.assumes)
+      for o in it.obl:
+        if o.kind == "unwind" or (o.kind == "bounds" and not (o.cond is True)):
+          self.obl.append((kernel.key, tid, o))
 
   def writes(self, cell):
     """plain stores into `cell` in execution order: [(index tuple, stored value)] (all threads of all launches)"""
@@ -135,7 +274,9 @@ class HostRun(host.HostRun):
       self.events.append(host.Event("copy", info=(dest.name_, getattr(src, "name_", sc.name))))
 
     wp.copy = copy
-    if self.skip_tiled and hasattr(wp, "launch_tiled"):
+    if self.exec_tiles and hasattr(wp, "launch_tiled"):
+      wp.launch_tiled = self.run_tiled
+    elif self.skip_tiled and hasattr(wp, "launch_tiled"):
       # tile kernels are only recorded (their outputs stay arbitrary): for runs whose claims do not depend on them
 
       def launch_tiled(*a, **kw):
@@ -300,6 +441,19 @@ def consts_of(e, acc=None):
   return acc
 
 
+def has_uf(e):
+  seen, todo = set(), [e]
+  while todo:
+    t = todo.pop()
+    if t.get_id() in seen:
+      continue
+    seen.add(t.get_id())
+    if z3.is_app(t) and t.num_args() > 0 and t.decl().kind() == z3.Z3_OP_UNINTERPRETED:
+      return True
+    todo.extend(t.children())
+  return False
+
+
 class OneShot(kh.Session):
   """every query in a FRESH non-incremental solver (z3's incremental mode gives up on nonlinear real queries that the one-shot
   solver decides at once)"""
@@ -351,17 +505,32 @@ class Chain:
       # keep the substitution idempotent: earlier right-hand sides may mention the new term
       self.subs = [(t, z3.substitute(c, (term, closed))) for t, c in self.subs] + [(term, closed)]
 
+  def _prepared(self):
+    """substituted definitions / axioms and their engine symbols; recomputed only when the substitution changed"""
+    key = (len(self.subs), len(self.defs), len(self.axioms), len(self.opaque))
+    if getattr(self, "_prep", (None,))[0] != key:
+      eng = lambda cs: {c for c in cs if "!" in c and not c.startswith("uninit!")} - self.opaque
+      replaced = {t.decl().name() for t, _ in self.subs if z3.is_const(t)}
+      defs = [(v, self.sb(t)) for v, t in self.defs if v.decl().name() not in replaced]
+      defc = [eng(consts_of(t)) for v, t in defs]
+      ax = [self.sb(a) for a in self.axioms]
+      axc = [eng(consts_of(a)) for a in ax]
+      self._prep = (key, defs, defc, ax, axc, [not c and has_uf(a) for a, c in zip(ax, axc)])
+    return self._prep[1:]
+
   def background(self, goal):
     eng = lambda cs: {c for c in cs if "!" in c and not c.startswith("uninit!")} - self.opaque
-    replaced = {t.decl().name() for t, _ in self.subs if z3.is_const(t)}
     need = eng(consts_of(goal))
-    defs = [(v, self.sb(t)) for v, t in self.defs if v.decl().name() not in replaced]
-    defc = [eng(consts_of(t)) for v, t in defs]
-    ax = [self.sb(a) for a in self.axioms]
-    axc = [eng(consts_of(a)) for a in ax]
+    defs, defc, ax, axc, axuf = self._prepared()
     axd = [{c for c in cs if c.startswith("sqrt!")} or cs for cs in axc]
     out = []
     used_d, used_a = [False] * len(defs), [False] * len(ax)
+    # contract axioms over uninterpreted functions whose arguments are parameters only (no engine symbol to link them to the
+    # goal) are always part of the background
+    for k in range(len(ax)):
+      if axuf[k]:
+        used_a[k] = True
+        out.append(ax[k])
     changed = True
     while changed:
       changed = False
